@@ -1,4 +1,4 @@
-import GtfsVerif.Lemmas.Realtime
+import GtfsVerif.Lemmas.RealtimeVeh
 /-! # C07 — realtime entities merge order-independently into unique, sorted trips / vehicles
 
 Model: `Gtfs.Rt.parse` (Model/Realtime.lean): the extension pre-pass, the merge loop
@@ -164,29 +164,6 @@ namespace Gtfs.Rt
 
 /-! ## order independence of the trips (conflict-free messages) -/
 
-/-- all trip mentions of a (pre-processed) message, in feed order -/
-def allMentions (ext : Ext) (es : List (Entity × Bool)) : List TripData :=
-  (es.filter fun p => !p.2).flatMap fun p => tripMentions ext p.1
-
-/-- **without conflicting duplicates**: every trip has at most one entity of its own among its mentions -/
-def ConflictFreeTrips (ext : Ext) (es : List (Entity × Bool)) : Prop :=
-  ∀ k, AtMostOneOwn ((allMentions ext es).filter fun m => m.id == k)
-
-theorem mergeAll_perm (k : TripID) (ms ms' : List TripData) (hp : ms'.Perm ms) (hk : ∀ m ∈ ms, m.id = k)
-    (h1 : AtMostOneOwn ms) : mergeAll none ms' = mergeAll none ms := by
-  by_cases hne : ms = []
-  · subst hne
-    have : ms' = [] := List.Perm.eq_nil hp
-    rw [this]
-  · have hne' : ms' ≠ [] := by
-      intro e; rw [e] at hp; exact hne (List.Perm.eq_nil hp.symm)
-    have hk' : ∀ m ∈ ms', m.id = k := fun m hm => hk m (hp.subset hm)
-    have h1' : AtMostOneOwn ms' := by
-      unfold AtMostOneOwn at *
-      rw [(hp.filter _).length_eq]; exact h1
-    rw [mergeAll_closed_form k ms hk hne h1, mergeAll_closed_form k ms' hk' hne' h1',
-        find?_perm_of_atMostOne _ ms ms' hp h1]
-
 /-- **any permutation of a conflict-free message's entities yields the same trip table**: the
     same identifiers, each with the same data (its own entity's data wherever that entity stands) -/
 theorem C07_trip_table_perm_invariant (ext : Ext) (es es' : List (Entity × Bool)) (hp : es'.Perm es)
@@ -263,5 +240,79 @@ theorem C07_parse_trips_perm_invariant (ext : Ext) (m m' : Msg) (hp : m'.entitie
   have hcomp : ∀ acc : Acc, ((fun (t : TripOut) => t.data) ∘ fun (p : TripID × TripData) => ({ data := p.2, vehicle := tripVehicle acc p.1 } : TripOut))
       = fun p => p.2 := by intro acc; rfl
   rw [hcomp, hcomp, this]
+
+end Gtfs.Rt
+
+namespace Gtfs.Rt
+
+/-! ## order independence of the vehicles (conflict-free messages) -/
+
+/-- the vehicle order is a strict total order on vehicle identifiers -/
+theorem C07_vehLess_strict_total :
+    (∀ a, vehLess a a = false) ∧
+    (∀ a b c, vehLess a b = true → vehLess b c = true → vehLess a c = true) ∧
+    (∀ a b, vehLess a b = true ∨ a = b ∨ vehLess b a = true) := by
+  refine ⟨?_, ?_, ?_⟩
+  · intro a; rw [vehLess_eq_key]; exact sto_vehKeyLt.irrefl _
+  · intro a b c; simp only [vehLess_eq_key]; exact sto_vehKeyLt.trans _ _ _
+  · intro a b
+    simp only [vehLess_eq_key]
+    rcases sto_vehKeyLt.tri (vehKey a) (vehKey b) with h | h | h
+    · exact Or.inl h
+    · exact Or.inr (Or.inl (vehKey_injective a b h))
+    · exact Or.inr (Or.inr h)
+
+/-- any permutation of a conflict-free message's entities yields the same table of identified vehicles -/
+theorem C07_vehicle_table_perm_invariant (ext : Ext) (es es' : List (Entity × Bool)) (hp : es'.Perm es)
+    (hcf : ConflictFreeVehicles ext es) (k : VehicleID) :
+    alookup k (runEntities ext es').vehicles = alookup k (runEntities ext es).vehicles := by
+  rw [vehicles_lookup, vehicles_lookup]
+  have hperm : (allVehMentions ext es').Perm (allVehMentions ext es) := (hp.filter _).flatMap_right _
+  apply mergeAllV_perm k
+  · exact hperm.filter _
+  · intro m hm; simpa using (List.mem_filter.mp hm).2
+  · exact hcf k
+
+/-- **C07 (order independence of Vehicles).** For a message without conflicting duplicates, any
+    permutation of its entities yields the same identified vehicles – the same identifiers in the same
+    (sorted) order, each with the same data – followed by the same id-less vehicles (which have no
+    identifier to sort by and keep feed order: the same multiset). -/
+theorem C07_parse_vehicles_perm_invariant (ext : Ext) (m m' : Msg) (hp : m'.entities.Perm m.entities)
+    (ht : m'.timestamp = m.timestamp) (hext : ∀ o, ext ≠ .alerts o)
+    (hcf : ConflictFreeVehicles ext (prepass ext m)) :
+    ∃ withId noId noId' : List VehData,
+      (parse ext m).vehicles.map (·.data) = withId ++ noId ∧
+      (parse ext m').vehicles.map (·.data) = withId ++ noId' ∧
+      noId'.Perm noId ∧ (∀ v ∈ withId, v.id.isSome) ∧ (∀ v ∈ noId, v.id = none) := by
+  have hpp := prepass_perm ext m m' hp ht hext
+  let le := fun (a b : VehicleID × VehData) => !vehLess b.1 a.1
+  have data_eq : ∀ (mm : Msg),
+      (parse ext mm).vehicles.map (·.data)
+        = ((runEntities ext (prepass ext mm)).vehicles.mergeSort le).map (·.2) ++ (runEntities ext (prepass ext mm)).noId := by
+    intro mm
+    unfold parse finish
+    simp only
+    rw [List.map_append, List.map_map]
+    congr 1
+    apply List.ext_getElem?
+    intro i
+    simp only [List.getElem?_map, List.getElem?_mapIdx, Option.map_map]
+    cases (runEntities ext (prepass ext mm)).noId[i]? <;> rfl
+  obtain ⟨_, hnd, hid, hno⟩ := runEntities_inv ext (prepass ext m)
+  obtain ⟨_, hnd', _, _⟩ := runEntities_inv ext (prepass ext m')
+  have hle : le = fun (a b : VehicleID × VehData) => !vehKeyLt (vehKey b.1) (vehKey a.1) := by
+    funext a b; simp only [le, vehLess_eq_key]
+  have hsorted : (runEntities ext (prepass ext m')).vehicles.mergeSort le = (runEntities ext (prepass ext m)).vehicles.mergeSort le := by
+    rw [hle]
+    exact sorted_eq_of_lookup_eq vehKeyLt sto_vehKeyLt vehKey vehKey_injective _ _ hnd' hnd
+      (C07_vehicle_table_perm_invariant ext _ _ hpp hcf)
+  refine ⟨((runEntities ext (prepass ext m)).vehicles.mergeSort le).map (·.2), (runEntities ext (prepass ext m)).noId,
+    (runEntities ext (prepass ext m')).noId, data_eq m, ?_, ?_, ?_, hno⟩
+  · rw [data_eq m', hsorted]
+  · rw [noId_eq, noId_eq]
+    exact ((hpp.filter _).flatMap_right _).filter _
+  · intro v hv
+    obtain ⟨p, hp', rfl⟩ := List.mem_map.mp hv
+    rw [hid p ((List.mergeSort_perm _ le).subset hp')]; rfl
 
 end Gtfs.Rt
